@@ -465,6 +465,10 @@ pub struct Scanner<'input, T> {
     /// For each flow collection we are in: whether it is a mapping, and the value
     /// [`Self::flow_mapping_started`] had when it was opened (restored when it is closed).
     flow_collections: Vec<(bool, bool)>,
+    /// Where the separation after the last block `:` ended, if it was made of tabs only.
+    ///
+    /// A block collection cannot start there; a scalar can.
+    tab_only_separation_end: Option<usize>,
     buf_leading_break: String,
     buf_trailing_breaks: String,
     buf_whitespaces: String,
@@ -521,6 +525,7 @@ impl<'input, T: Input> Scanner<'input, T> {
             flow_mapping_started: false,
             implicit_flow_mapping_states: vec![],
             flow_collections: vec![],
+            tab_only_separation_end: None,
 
             buf_leading_break: String::new(),
             buf_trailing_breaks: String::new(),
@@ -2505,19 +2510,36 @@ impl<'input, T: Input> Scanner<'input, T> {
             *self.implicit_flow_mapping_states.last_mut().unwrap() = ImplicitMappingState::Inside;
         }
 
+        // The key of this value starts right after a separation made of tabs only: it would start
+        // a block mapping there (`? a\n:\tkey: v`).
+        if sk.possible
+            && self.flow_level == 0
+            && self.tab_only_separation_end == Some(sk.mark.index)
+        {
+            return Err(ScanError::new_str(
+                sk.mark,
+                "':' must be followed by a valid YAML whitespace",
+            ));
+        }
+
         // Skip over ':'.
         self.skip_non_blank();
         // A block collection cannot start after a separation made of tabs only. Inside a flow
         // collection there are no block collections and tabs are plain separation (`{"a":\t1}`).
+        // A scalar may follow (`key:\tvalue`); whether it is an implicit key is only known at its
+        // ':', which checks `tab_only_separation_end`.
         if self.input.look_ch() == '\t'
             && !self.skip_ws_to_eol(SkipTabs::Yes)?.has_valid_yaml_ws()
             && self.flow_level == 0
-            && (self.input.peek() == '-' || self.input.next_is_alpha())
         {
-            return Err(ScanError::new_str(
-                self.mark,
-                "':' must be followed by a valid YAML whitespace",
-            ));
+            self.input.lookahead(2);
+            if self.input.peek() == '-' && is_blank_or_breakz(self.input.peek_nth(1)) {
+                return Err(ScanError::new_str(
+                    self.mark,
+                    "':' must be followed by a valid YAML whitespace",
+                ));
+            }
+            self.tab_only_separation_end = Some(self.mark.index);
         }
 
         if sk.possible {
